@@ -34,6 +34,17 @@ if (negb (e_1 =? errno_ENOENT)) then (
 | (w, OExn x_2) => (w, OExn x_2)
 end.
 
+Fixpoint gen_write_to_tempfile_wloop (fuel_ : nat) (fd : Z) (view : bytes) (w : W) {struct fuel_} : option (W * ores unit) :=
+  match fuel_ with O => None | S fuel__ =>
+  if (negb ((zlen view) =? 0)) then (
+match rt_write rt fd view w with
+| (w, OOk n_1) =>
+let view := zslice (Some n_1) None view in
+gen_write_to_tempfile_wloop fuel__ fd view w
+| (w, OErr e_2) => Some (w, OErr e_2)
+| (w, OExn x_3) => Some (w, OExn x_3)
+end)
+  else Some (w, OOk tt) end.
 Definition gen_write_to_tempfile (content : bytes) (path : option bytes) (suffix : bytes) (prefix : bytes) (w : W) : W * ores (bytes) :=
 match path with
 | Some path__s => if nonempty path__s then (
@@ -41,25 +52,29 @@ match gen_ensure_tree path__s default_mode w with
 | (w, OOk _) =>
 match rt_mkstemp rt suffix path prefix w with
 | (w, OOk (fd, path)) =>
-match rt_write rt fd content w with
-| (w, OOk _) =>
+let view := content in
+match gen_write_to_tempfile_wloop (S (length view)) fd view w with
+| None => match rt_close rt fd w with
+| (w, OOk _) => (w, OExn OtherError)
+| (w, OErr e_5) => (w, OErr e_5)
+| (w, OExn x_6) => (w, OExn x_6)
+end
+| Some (w, OOk _) =>
 match rt_close rt fd w with
 | (w, OOk _) => (
 (w, OOk path))
-| (w, OErr e_7) => (w, OErr e_7)
-| (w, OExn x_8) => (w, OExn x_8)
+| (w, OErr e_5) => (w, OErr e_5)
+| (w, OExn x_6) => (w, OExn x_6)
 end
-| (w, OErr e_5) =>
-match rt_close rt fd w with
-| (w, OOk _) => (w, OErr e_5)
-| (w, OErr e_7) => (w, OErr e_7)
-| (w, OExn x_8) => (w, OExn x_8)
+| Some (w, OErr e_7) => match rt_close rt fd w with
+| (w, OOk _) => (w, OErr e_7)
+| (w, OErr e_5) => (w, OErr e_5)
+| (w, OExn x_6) => (w, OExn x_6)
 end
-| (w, OExn x_6) =>
-match rt_close rt fd w with
-| (w, OOk _) => (w, OExn x_6)
-| (w, OErr e_7) => (w, OErr e_7)
-| (w, OExn x_8) => (w, OExn x_8)
+| Some (w, OExn x_8) => match rt_close rt fd w with
+| (w, OOk _) => (w, OExn x_8)
+| (w, OErr e_5) => (w, OErr e_5)
+| (w, OExn x_6) => (w, OExn x_6)
 end
 end
 | (w, OErr e_3) => (w, OErr e_3)
@@ -71,25 +86,29 @@ end
 ) else (
 match rt_mkstemp rt suffix path prefix w with
 | (w, OOk (fd, path)) =>
-match rt_write rt fd content w with
-| (w, OOk _) =>
+let view := content in
+match gen_write_to_tempfile_wloop (S (length view)) fd view w with
+| None => match rt_close rt fd w with
+| (w, OOk _) => (w, OExn OtherError)
+| (w, OErr e_11) => (w, OErr e_11)
+| (w, OExn x_12) => (w, OExn x_12)
+end
+| Some (w, OOk _) =>
 match rt_close rt fd w with
 | (w, OOk _) => (
 (w, OOk path))
-| (w, OErr e_13) => (w, OErr e_13)
-| (w, OExn x_14) => (w, OExn x_14)
+| (w, OErr e_11) => (w, OErr e_11)
+| (w, OExn x_12) => (w, OExn x_12)
 end
-| (w, OErr e_11) =>
-match rt_close rt fd w with
-| (w, OOk _) => (w, OErr e_11)
-| (w, OErr e_13) => (w, OErr e_13)
-| (w, OExn x_14) => (w, OExn x_14)
+| Some (w, OErr e_13) => match rt_close rt fd w with
+| (w, OOk _) => (w, OErr e_13)
+| (w, OErr e_11) => (w, OErr e_11)
+| (w, OExn x_12) => (w, OExn x_12)
 end
-| (w, OExn x_12) =>
-match rt_close rt fd w with
-| (w, OOk _) => (w, OExn x_12)
-| (w, OErr e_13) => (w, OErr e_13)
-| (w, OExn x_14) => (w, OExn x_14)
+| Some (w, OExn x_14) => match rt_close rt fd w with
+| (w, OOk _) => (w, OExn x_14)
+| (w, OErr e_11) => (w, OErr e_11)
+| (w, OExn x_12) => (w, OExn x_12)
 end
 end
 | (w, OErr e_9) => (w, OErr e_9)
@@ -99,25 +118,29 @@ end
 | None => (
 match rt_mkstemp rt suffix path prefix w with
 | (w, OOk (fd, path)) =>
-match rt_write rt fd content w with
-| (w, OOk _) =>
+let view := content in
+match gen_write_to_tempfile_wloop (S (length view)) fd view w with
+| None => match rt_close rt fd w with
+| (w, OOk _) => (w, OExn OtherError)
+| (w, OErr e_11) => (w, OErr e_11)
+| (w, OExn x_12) => (w, OExn x_12)
+end
+| Some (w, OOk _) =>
 match rt_close rt fd w with
 | (w, OOk _) => (
 (w, OOk path))
-| (w, OErr e_13) => (w, OErr e_13)
-| (w, OExn x_14) => (w, OExn x_14)
+| (w, OErr e_11) => (w, OErr e_11)
+| (w, OExn x_12) => (w, OExn x_12)
 end
-| (w, OErr e_11) =>
-match rt_close rt fd w with
-| (w, OOk _) => (w, OErr e_11)
-| (w, OErr e_13) => (w, OErr e_13)
-| (w, OExn x_14) => (w, OExn x_14)
+| Some (w, OErr e_13) => match rt_close rt fd w with
+| (w, OOk _) => (w, OErr e_13)
+| (w, OErr e_11) => (w, OErr e_11)
+| (w, OExn x_12) => (w, OExn x_12)
 end
-| (w, OExn x_12) =>
-match rt_close rt fd w with
-| (w, OOk _) => (w, OExn x_12)
-| (w, OErr e_13) => (w, OErr e_13)
-| (w, OExn x_14) => (w, OExn x_14)
+| Some (w, OExn x_14) => match rt_close rt fd w with
+| (w, OOk _) => (w, OExn x_14)
+| (w, OErr e_11) => (w, OErr e_11)
+| (w, OExn x_12) => (w, OExn x_12)
 end
 end
 | (w, OErr e_9) => (w, OErr e_9)
